@@ -328,14 +328,18 @@ where
         Err(_) => return Err(Error::ClientBadStartup),
     };
 
+    // The message holds at least its length and a code.
+    if len < 8 {
+        return Err(Error::ClientBadStartup);
+    }
+
     // Get the rest of the message.
-    let mut startup = vec![0u8; len as usize - 4];
-    match stream.read_exact(&mut startup).await {
+    let mut bytes = BytesMut::new();
+    match read_exact_into(stream, &mut bytes, len as usize - 4).await {
         Ok(_) => (),
         Err(_) => return Err(Error::ClientBadStartup),
     };
 
-    let mut bytes = BytesMut::from(&startup[..]);
     let code = bytes.get_i32();
 
     match code {
@@ -523,9 +527,15 @@ where
                         }
                     };
 
-                    let mut password_response = vec![0u8; (len - 4) as usize];
+                    let mut password_response = BytesMut::new();
 
-                    match read.read_exact(&mut password_response).await {
+                    match read_exact_into(
+                        &mut read,
+                        &mut password_response,
+                        (len.max(4) - 4) as usize,
+                    )
+                    .await
+                    {
                         Ok(_) => (),
                         Err(_) => {
                             return Err(Error::ClientSocketError(
@@ -614,9 +624,15 @@ where
                         }
                     };
 
-                    let mut password_response = vec![0u8; (len - 4) as usize];
+                    let mut password_response = BytesMut::new();
 
-                    match read.read_exact(&mut password_response).await {
+                    match read_exact_into(
+                        &mut read,
+                        &mut password_response,
+                        (len.max(4) - 4) as usize,
+                    )
+                    .await
+                    {
                         Ok(_) => (),
                         Err(_) => {
                             return Err(Error::ClientSocketError(
